@@ -327,6 +327,19 @@ def agrees(got, prog, env, want, tree=None):
                 raise
             except Exception as ex:  # noqa: BLE001
                 return type(ex).__name__ == got[1]
+        if got == ("exc", "OverflowError") and tree is not None:
+            # 4**200 % (int / int): the tree's true division of two ints is a float (the plain
+            # operand was exact because a dropped zero-valued term had made it a Fraction) and a
+            # huge int does not convert -- agreed if the tree on exact rationals gives the value
+            try:
+                with refsem.exact():
+                    gx = refsem.outcome(lambda: refsem.ev(tree, env))
+                wx = num(prog, env, exact=True)
+                return gx[0] == "v" and refsem.values_equal(gx[1], wx)
+            except RecursionError:
+                raise
+            except Exception:  # noqa: BLE001
+                return False
         return False
     if refsem.values_equal(got[1], want):
         return True
@@ -512,6 +525,10 @@ def _refusal_finding(ctx, prog):
         raw = frozenset(pth for pth, o in st if o == opname)
         if not raw:
             continue
+        if has_empty_subscript(prog):
+            # (d[()] elsewhere in the program: the other recorded shortcut is neutralised too,
+            #  or the rebuilt tree fails for ITS reason -- d >> x -- and explains nothing)
+            raw = raw | frozenset(["emptyok"])
         try:
             t = sym(prog, raw)
         except RecursionError:
@@ -592,6 +609,8 @@ def _sub(prog, path):
 def _site_condition(prog, raw, opname, env):
     """The syntactic/semantic condition of the finding holds at one of the sites."""
     for pth in raw:
+        if not isinstance(pth, tuple):
+            continue        # ("emptyok": not a site)
         node = _sub(prog, pth)
         try:
             lv, rv = num(node[2], env), num(node[3], env)
